@@ -72,11 +72,17 @@ P = {
                   "keys and values, the matcher CreateRule assembles for a route answers exactly scheme && method(ALL / !M) && any-host && all "
                   "path_params on the decoded value of the named wildcard, and never panics (C03_route_matches_iff, C03_method_list_semantics, "
                   "C03_hosts_any). (2) Decoding: the capture decoding equals the specified percent-decoding per encoded-slash setting for all three "
-                  "variants of the decoder, rejection under `off` exactly on encoded slashes (C03_decode_per_setting, C03_captures_exact). "
-                  "(3) Lookup tree, for EVERY tree the repository can reach - any sequence of Tree.Add and Tree.Delete (prefix splits, deleteChild "
-                  "merges, any values constraint), hence after ANY history of AddRuleSet / UpdateRuleSet / DeleteRuleSet (C03_history_index_is_reachable; "
-                  "C03_reach_* and C03_history_* restate every theorem of this paragraph for such trees; the original names are the instance 'one "
-                  "AddRuleSet on the empty tree', any number of rules/routes, any insertion order, prefix splitting and escapes included) - and all requests: every matcher call is made for a route whose expression matches the request path as documented, "
+                  "variants of the decoder, rejection under `off` exactly on encoded slashes (C03_decode_per_setting, C03_captures_exact); a methods list is refused exactly when it "
+                  "contains an empty string or is non-empty and allows no method by the specification (C03_method_list_rejected_spec). "
+                  "(3) Lookup tree, for EVERY tree the repository can reach - any sequence of Tree.Add of a route under its own expression and "
+                  "Tree.Delete of a valid expression, which is what repository_impl.go issues (prefix splits, deleteChild merges, any values constraint, "
+                  "any value matcher) - hence after ANY history of AddRuleSet / UpdateRuleSet / DeleteRuleSet (C03_history_index_is_reachable). The seven "
+                  "C03_reach_* theorems restate every theorem of this paragraph for such trees; C03_history_matcher_sees_route_keys, "
+                  "C03_history_lookup_no_panic, C03_history_lookup_answers_as_documented_now and C03_history_selected_only_if_documented instantiate "
+                  "four of them (keys, no panic, answers _now, END TO END) on the index after a history, the others follow from "
+                  "C03_history_index_is_reachable + C03_reach_*; the original names are the instance 'one AddRuleSet on the empty tree' (C03's own "
+                  "transcription of Add; any number of rules/routes, any insertion order, prefix splitting and escapes included; satisfiable: "
+                  "C03_lookup_nonvacuous, C03_history_nonvacuous). For all such trees and all requests: every matcher call is made for a route whose expression matches the request path as documented, "
                   "with the wildcard names that route declares and the segments its wildcards match, free wildcard included "
                   "(C03_matcher_sees_route_keys: insertion invariant over addNode/splitCommonPrefix, soundness of findNode, and both directions between "
                   "the byte-level position of an expression and the documentation's segment-level matching, the converse for the valid expressions Add "
@@ -93,18 +99,25 @@ P = {
                   "after a history with updates and deletes on the real repository (model: hrun, the shared tree driven as repository_impl.go drives it); the verdict "
                   "is the specification's predicate on the implementation's observation (answers of all matcher calls, selected rule, captures as the "
                   "pipeline sees them, rejection) plus correspondence of the model on accepted/rejected, selected rule, captures, rejection and the "
-                  "(route, answer) projection of the call trace. History independence: every request of a case is served by the same matcher instances "
-                  "as the requests before it and must get the answer an instance built anew gives (C03_history_independent states it for the model, "
-                  "which is stateless by construction; the check observes it on the implementation).",
+                  "(route, answer) projection of the call trace. Independence from earlier REQUESTS: every request of a case is served by the same matcher instances "
+                  "as the requests before it and must get the answer an instance built anew gives; this is observed on the implementation, not proved: "
+                  "C03_request_sequence_independent only records that the model is stateless by construction (nth_error of a map) and covers no clause.",
     "level_note": "Trusted: Coq kernel/vm_compute; the driver (generator, recorder between tree and route, Gallina rendering); glob/regex "
                   "engines as recorded oracles; the request view (method, scheme, host, Path, RawPath) as case data. Values that are not validly "
                   "percent-encoded carry no requirement (hypothesis valid_enc; such paths are rejected by net/http and yield an empty Path under "
-                  "Envoy). Which of several matching routes is consulted first / backtracking is C02's subject: the C03 theorems speak about the calls "
+                  "Envoy - RawPath then holds the invalid text, since ae6db4f; the hypothesis of the _now theorems is on RawPath). Which of several matching routes is consulted first / backtracking is C02's subject: the C03 theorems speak about the calls "
                   "that are made and the rule that is selected (both directions between stored position and documented expression are proved), not "
                   "about completeness of the search. Correspondence compares accepted/rejected, selected rule, captures, rejection and the (route, answer) "
                   "projection of the call trace; keys/values are not compared (they are the subject of the theorems). A request view WITHOUT RawPath is produced by no entry point (only by callers that build heimdall.Request themselves); for such views the check requires no panic, history independence and correspondence with the model, but not the decoding clauses (their Path is already decoded; the code decodes captures once more there - noted, not recorded as a finding). Tree Delete is the shared transcription C06/TreeDel.v (not C03's): the C03_reach_* / C03_history_* theorems hold for every tree reachable by Add and Delete and rest on Radix/TreeAddProofs, C06/TreeDelProofs, C06/TreeRefine (entry-by-entry characterisation of Add / Delete on the abstraction) and C02/Reach (reachable => wfd). They say which route a call or a selection belongs to among ALL routes ever created in the case (every version of every rule); that a route deleted or replaced by an update is no longer in the index ('history = fresh load of the current sets') is C06's / C02's theorem, not restated here. C03's lookup function (with call trace and panics) is not proved equal to Radix's find: the theorems about calls use C03's own soundness lemma find_node_good, which needs no invariant, on the converted tree. Priority sorting is not modelled. Decoder spec reading: a kept "
-                  "encoded slash is written in the canonical spelling %2F (RFC 3986 2.1), which is what the repair of F7 does.",
+                  "encoded slash is written in the canonical spelling %2F (RFC 3986 2.1), which is what the repair of F7 does. Two more spec readings "
+                  "shape the verdict (Spec.v): (a) spec_param: under `off` a request whose RawPath has an encoded slash satisfies NO path_params condition - "
+                  "this transcribes pathParamMatcher's early return, the statement itself does not say it; consequence: a rule with path_params under `off` is "
+                  "never 'selected and refused' for such a request, it simply does not match (another rule / the default may). (b) for duplicate wildcard "
+                  "names (/:a/:a) a path_params condition sees the FIRST segment named a (assoc_first) while the exposed map holds the LAST (map_of) - what "
+                  "the code does; the statement does not exclude duplicate names.",
     "assumptions": ["the driver is in-package (internal/rules) and wraps rule.Route values; a rename of ruleImpl/routeImpl fields or of the "
                     "Route interface breaks the driver, not the property",
-                    "HTTP entry points always set RawPath (= EscapedPath); the Envoy entry point never does - taken from the observed view"],
+                    "every entry point sets RawPath for a non-empty path: HTTP = EscapedPath (requestcontext/extract_url.go), Envoy = the received "
+                    ":path since ae6db4f (Path = its decoding, \"\" if not validly encoded); a view without RawPath arises only from callers that "
+                    "build heimdall.Request themselves (driver style `direct`) - taken from the observed view"],
 }
